@@ -106,6 +106,29 @@ class ObserversMixin:
                 with contextlib.redirect_stdout(buf):
                     r1 = self.call(lambda t=t: t >> pdt.ast_repr())
                 outs[rep] = "ok" if r1[0] == "ok" else "exc:" + r1[1]
+            elif kind == "expr_export":
+                x = self.exprs.get(step["x"])
+                if x is None:
+                    raise Skip(step["x"])
+                if rep in x:
+                    r1 = self.call(lambda e=x[rep]: e.export(pdt.Polars()))
+                    r2 = self.call(lambda e=x[rep]: e.export(pdt.Polars()))
+                    if faults:
+                        faults.disarm()
+                    if r1[0] == "ok" and r2[0] == "ok":
+                        if r1[1].to_list() != r2[1].to_list() and sorted(map(str, r1[1].to_list())) != sorted(map(str, r2[1].to_list())):
+                            self.obs_violation("O10.2", f"two exports of one expression object differ ({rep})", step, rep)
+                        outs[rep] = "ok"
+                        self.note("expr_exported")
+                    else:
+                        outs[rep] = "exc:" + (r1[1] if r1[0] != "ok" else r2[1])
+            elif kind == "show_query":
+                buf = io.StringIO()
+                with contextlib.redirect_stdout(buf):
+                    r1 = self.call(lambda t=t: t >> pdt.show_query())
+                if faults:
+                    faults.disarm()
+                outs[rep] = "ok" if r1[0] == "ok" else "exc:" + r1[1]
             elif kind == "expr_repr":
                 x = self.exprs.get(step["x"])
                 if x is None:
